@@ -34,7 +34,48 @@ func init() {
 			if sc.Params == nil {
 				sc.Params = map[string]string{}
 			}
-			sc.Params["mode"] = []string{"serial", "permute", "diskfault", "inputloss", "crash", "latefile", "unreadable", "replaced"}[(idx-(idx+1)/4)%8] // every fourth index is the termination stratum above: count the others
+			sc.Params["mode"] = []string{"serial", "permute", "diskfault", "inputloss", "crash", "latefile", "unreadable", "replaced", "realbin"}[(idx-(idx+1)/4)%9] // every fourth index is the termination stratum above: count the others
+			if sc.Params["mode"] == "realbin" {
+				// the shipped binary on the real disk, with failing lines. Stratum: the output id of a failing line is the
+				// head or the tail of a good line's output id (whatever a failing run tidies up must be its own)
+				var bad, good []int
+				for i, l := range sc.Lines {
+					if l.Bad != "" && len(l.Drop) == 0 {
+						bad = append(bad, i)
+					} else if l.Bad == "" {
+						good = append(good, i)
+					}
+				}
+				if len(bad) > 0 && len(good) > 0 && r.Bool(0.7) {
+					f, v := bad[r.Intn(len(bad))], good[r.Intn(len(good))]
+					fw := sc.Worlds[sc.Lines[f].World]
+					fplot := fw.Plot
+					for _, a := range sc.Lines[f].Extra {
+						if strings.HasPrefix(a, "plotNr=") {
+							fplot = a[len("plotNr="):]
+						}
+					}
+					sc.Lines[f].OutTag = "B"
+					// both lines in one project (one result folder); the good line stands before the failing one in the batch
+					sc.Lines[v].World = sc.Lines[f].World
+					var ex []string
+					for _, a := range sc.Lines[v].Extra {
+						if !strings.HasPrefix(a, "fcode=") && !strings.HasPrefix(a, "soilId=") && !strings.HasPrefix(a, "WeatherFolder=") && !strings.HasPrefix(a, "fileExtension=") && !strings.HasPrefix(a, "LeachingDepth=") {
+							ex = append(ex, a)
+						}
+					}
+					sc.Lines[v].Extra = ex
+					if r.Bool(0.5) {
+						sc.Lines[v].OutTag = "B" + fplot + "Z" // the good line's id begins with the failing line's id
+					} else {
+						sc.Lines[v].OutTag = "ZB" // the good line's id ends with the failing line's id (when both name the same plot)
+					}
+					if v > f {
+						sc.Lines[v], sc.Lines[f] = sc.Lines[f], sc.Lines[v]
+					}
+					sc.Params["relatedids"] = "1"
+				}
+			}
 			if r.Bool(0.3) {
 				sc.Params["log"] = "0"
 			}
@@ -46,8 +87,8 @@ func init() {
 		Chunk:      5,
 		TimeoutS:   150,
 		NonTrivial: func(res *Result) bool { return batchNonTrivial(res) && (res.Stats["reach.failing-lines"] > 0 || res.Stats["mode.serial"] > 0) },
-		Rule:       "one batch scenario per evaluation: valid lines mixed with lines of each reported-error class (unknown soil id, unknown field id, texture not in the tables, inconsistent fractions, weather gap, tillage inside the crop, start year mismatch) at random positions, any concurrency, executed by the real dispatcher under the seeded scheduler, an eighth each with write errors (full disk, transient, torn write) on one good line's result stream, with a weather year file that disappears at a scheduler decision while the batch is under way, with a crash and re-run over torn survivors, with the one optional input file (tillage schedule) arriving at a scheduler decision (a run that starts afterwards must see it), and with a pooled input file unreadable at the very moment of its first load (child process: the program may give up or fail that line, never go on with other content), and with a pooled project file replaced by another version at a scheduler decision (every line of that project equals its solo run on the old or on the new version, never a mixture); every fourth scenario instead carries fertiliser-prediction dates at latitudes -70..70 (termination); non-trivial = at least two runs parked simultaneously; distinct = hash of the decision trace",
-		ReachKeys:  []string{"reach.interleaved", "reach.failing-lines", "fault.permutation", "fault.write-error.scenarios", "fault.year-file-deleted-mid-batch", "reach.line-failed-by-the-loss", "fault.crash", "fault.optional-input-file-arrives-mid-batch", "reach.run-started-after-the-file-arrived", "reach.run-started-before-the-file-arrived", "reach.process-ended-at-the-unreadable-file", "fault.pooled-file-vanishes-after-its-first-load", "fault.pooled-file-replaced-mid-batch", "reach.run-started-after-the-replacement"},
+		Rule:       "one batch scenario per evaluation: valid lines mixed with lines of each reported-error class (unknown soil id, unknown field id, texture not in the tables, inconsistent fractions, weather gap, tillage inside the crop, start year mismatch) at random positions, any concurrency, executed by the real dispatcher under the seeded scheduler, a ninth each with write errors (full disk, transient, torn write) on one good line's result stream, with a weather year file that disappears at a scheduler decision while the batch is under way, with a crash and re-run over torn survivors, with the one optional input file (tillage schedule) arriving at a scheduler decision (a run that starts afterwards must see it), and with a pooled input file unreadable at the very moment of its first load (child process: the program may give up or fail that line, never go on with other content), and with a pooled project file replaced by another version at a scheduler decision (every line of that project equals its solo run on the old or on the new version, never a mixture), and through the shipped binary on the real disk over stale files (output ids of a failing and a good line head / tail of each other); every fourth scenario instead carries fertiliser-prediction dates at latitudes -70..70 (termination); non-trivial = at least two runs parked simultaneously; distinct = hash of the decision trace",
+		ReachKeys:  []string{"reach.interleaved", "reach.failing-lines", "fault.permutation", "fault.write-error.scenarios", "fault.year-file-deleted-mid-batch", "reach.line-failed-by-the-loss", "fault.crash", "fault.optional-input-file-arrives-mid-batch", "reach.run-started-after-the-file-arrived", "reach.run-started-before-the-file-arrived", "reach.process-ended-at-the-unreadable-file", "fault.pooled-file-vanishes-after-its-first-load", "fault.pooled-file-replaced-mid-batch", "reach.run-started-after-the-replacement", "realbin.batches"},
 		Assumptions: []string{
 			"termination is decided by a CPU watchdog: a worker that makes no progress for 90 s while its scenarios normally need < 1 s is killed and its goroutine dump inspected",
 			"the reference of every line is the same line executed alone in a fresh session",
